@@ -136,6 +136,25 @@ CLAIMED = {
              "datasets (dtype and every cell compared). Two recorded open findings (NUL stripping in bytes/str columns; raw "
              "string buffers stored through a 'str' dtype) are reported as KNOWN-FINDING and any other difference is a violation.",
         design="§7 C18", technique="Lean 4 proof (fold = filter; range arithmetic) + cell-by-cell correspondence on real datasets"),
+    "C16": dict(
+        text="PARTIAL. Proved: every element search the loader is built from commutes with comment removal (elems_strip, "
+             "findAll_strip, findFirst_strip: a comment between any two elements changes no search result) and is independent of "
+             "the namespace convention (matches_setNs, findAll_spelling: the same elements are found whether the document is "
+             "rendered with a prefix of any name, a default namespace or no namespace); the loader-state model shows the result "
+             "of a load does not depend on the class-level state left by any sequence of earlier loads (history_independent, "
+             "after_any_sequence). The lifting of the search lemmas through all from_xml functions is not a theorem; it is "
+             "carried by the correspondence: each document in 5 spellings x comments x whitespace, loaded in one process after "
+             "0..5 prior loads (other renderings and malformed inputs), with the oracle demanding one definition for all renderings.",
+        design="§7 C16", technique="Lean 4 proof (search-level commutation lemmas, state model) + correspondence check"),
+    "C17": dict(
+        text="PARTIAL. Proved about the mirror of the loader: types_unique / params_unique (a successful load has pairwise "
+             "distinct type and parameter names), duplicate_type_rejected / duplicate_parameter_rejected, "
+             "unknown_type_ref_rejected / parameter_type_resolves, containers_unique (the three name tables of the definition "
+             "object never hold two entries for a name, by induction through the recursive cache filling). Not proved: the "
+             "exactness of inheritor lists and the rejection of dangling container/entry references and cycles end-to-end — these "
+             "are decided by the correspondence (all single-point corruptions of generated documents) with an independent oracle "
+             "over the document tree; object identity is checked with `is` on the real graph.",
+        design="§7 C17", technique="Lean 4 proof (fold invariants) + corruption-sweep correspondence check"),
 }
 
 NOT_YET = "check not built yet (work in progress; see DESIGN.md §11 build order)"
